@@ -345,6 +345,36 @@ func runC20(c *core.Ctx) {
 					}
 				}
 			}
+			// --- same-type conversion where the zero-length destination is a view
+			// of the very storage the (non-empty) source reads
+			if g.ch > 0 && g.k > 0 && g.l == 0 {
+				for _, cv := range dyn.Convs {
+					if cv.S.ID != t.ID || cv.D.ID != t.ID {
+						continue
+					}
+					cid := base + "/" + cv.Name() + "/same-storage"
+					ev(cv.Name(), "conv-same-storage", cid, d)
+					bb := mk() // length 0, capacity k
+					full := bb.Slice(0, g.k)
+					for i := 0; i < full.Len(); i++ {
+						full.SetSample(i, mon.Canary(t.TypeInfo, i, 13))
+					}
+					for name, dst := range map[string]dyn.Buf{"the zero-length buffer itself": bb, "an empty tail view": bb.Slice(g.k, g.k), "an empty view at frame 0": bb.Slice(0, 0)} {
+						var ret int
+						if p, msg := core.Guard(func() { ret = cv.Call(full, dst) }); p {
+							c.Violate(cv.Name()+"|panic", cid, "conversion into "+name+" of the source's storage panicked: "+msg, d)
+						} else if ret != 0 || dst.Len() != 0 {
+							c.Violate(cv.Name()+"|count", cid, fmt.Sprintf("conversion into %s of the source's storage returned %d (destination length %d)", name, ret, dst.Len()), d)
+						}
+					}
+					for i := 0; i < full.Len(); i++ {
+						if !dyn.NumEq(full.Sample(i), mon.Canary(t.TypeInfo, i, 13)) {
+							c.Violate(cv.Name()+"|transferred", cid, "conversion into a zero-length view changed the storage", d)
+							break
+						}
+					}
+				}
+			}
 			// --- conversions, degenerate buffer as source and as destination
 			ci := 0
 			for _, cv := range dyn.Convs {
